@@ -8,6 +8,7 @@ import (
 
 	"verifharness/core"
 	"verifharness/props/c02"
+	"verifharness/props/c04"
 	"verifharness/props/c06"
 	"verifharness/props/c08"
 	"verifharness/props/c09"
@@ -24,6 +25,7 @@ import (
 
 var checks = map[string]func(*core.Ctx) int{
 	"C02": c02.Run,
+	"C04": c04.Run,
 	"C06": c06.Run,
 	"C08": c08.Run,
 	"C09": c09.Run,
